@@ -81,6 +81,10 @@ func runCron(c cronCase) *report {
 			}
 		} else if ss.Minute&^cronStarBit == 0 || ss.Hour&^cronStarBit == 0 || ss.Dom&^cronStarBit == 0 || ss.Month&^cronStarBit == 0 || ss.Dow&^cronStarBit == 0 {
 			r.class("cron:empty-set")
+			// an empty minutes set is searched minute by minute through five years (about half a second): one instant
+			if ss.Minute&^cronStarBit == 0 && len(instants) > 1 {
+				instants = instants[:1]
+			}
 		}
 	} else {
 		r.class("cron:constant-delay")
@@ -391,6 +395,9 @@ func TestCronEmptySets(t *testing.T) {
 		fields[f] = ","
 		for i, at := range fixedInstants()[:3] {
 			if f == 0 && i > 0 && !vk.Thorough() {
+				continue
+			}
+			if !vk.Mine(f*3 + i) {
 				continue
 			}
 			c := cronCase{Opt: opt, Spec: strings.Join(fields, " "), Instants: []time.Time{at}, SlowBudget: 1}
